@@ -207,36 +207,33 @@ theorem entailsB_iff (n : Nat) (p : Problem) (c : Lin) (hp : p.wf n = true) (hc 
 
 /-! ### optimisation -/
 
-/-- Minimum of the cost over the satisfying boolean lists, `none` if there is none. -/
-def minCost (f : List (Int × Int)) : List (List Bool) → Option Int
+/-- Minimum of `g` over a list, `none` if the list is empty. -/
+def minOver (g : List Bool → Int) : List (List Bool) → Option Int
   | [] => none
   | bs :: rest =>
-    match minCost f rest with
-    | none => some (cost f (asgOf bs))
-    | some m => some (if cost f (asgOf bs) < m then cost f (asgOf bs) else m)
+    match minOver g rest with
+    | none => some (g bs)
+    | some m => some (if g bs < m then g bs else m)
 
-def bruteOpt (n : Nat) (p : Problem) (f : List (Int × Int)) : Option Int :=
-  minCost f (modelsOver n p)
-
-theorem minCost_none (f) : ∀ l, minCost f l = none ↔ l = [] := by
+theorem minOver_none (g) : ∀ l, minOver g l = none ↔ l = [] := by
   intro l
   cases l with
-  | nil => simp [minCost]
+  | nil => simp [minOver]
   | cons b l =>
-    simp only [minCost]
+    simp only [minOver]
     split <;> simp
 
-theorem minCost_some (f) : ∀ (l : List (List Bool)) (m : Int), minCost f l = some m →
-    (∃ bs ∈ l, cost f (asgOf bs) = m) ∧ ∀ bs ∈ l, m ≤ cost f (asgOf bs) := by
+theorem minOver_some (g) : ∀ (l : List (List Bool)) (m : Int), minOver g l = some m →
+    (∃ bs ∈ l, g bs = m) ∧ ∀ bs ∈ l, m ≤ g bs := by
   intro l
   induction l with
-  | nil => intro m h; simp [minCost] at h
+  | nil => intro m h; simp [minOver] at h
   | cons b l ih =>
     intro m h
-    simp only [minCost] at h
+    simp only [minOver] at h
     split at h
     · rename_i hn
-      have hl : l = [] := (minCost_none f l).1 hn
+      have hl : l = [] := (minOver_none g l).1 hn
       subst hl
       simp at h
       subst h
@@ -245,7 +242,7 @@ theorem minCost_some (f) : ∀ (l : List (List Bool)) (m : Int), minCost f l = s
       have := ih m' hs
       simp at h
       obtain ⟨⟨w, hw, hwc⟩, hmin⟩ := this
-      by_cases hlt : cost f (asgOf b) < m'
+      by_cases hlt : g b < m'
       · simp [hlt] at h
         subst h
         refine ⟨⟨b, by simp, rfl⟩, ?_⟩
@@ -262,6 +259,18 @@ theorem minCost_some (f) : ∀ (l : List (List Bool)) (m : Int), minCost f l = s
         rcases hbs with rfl | hbs
         · omega
         · exact hmin bs hbs
+
+/-- Minimum of the cost over the satisfying boolean lists, `none` if there is none. -/
+def minCost (f : List (Int × Int)) : List (List Bool) → Option Int :=
+  minOver (fun bs => cost f (asgOf bs))
+
+def bruteOpt (n : Nat) (p : Problem) (f : List (Int × Int)) : Option Int :=
+  minCost f (modelsOver n p)
+
+theorem minCost_none (f) : ∀ l, minCost f l = none ↔ l = [] := minOver_none _
+
+theorem minCost_some (f) : ∀ (l : List (List Bool)) (m : Int), minCost f l = some m →
+    (∃ bs ∈ l, cost f (asgOf bs) = m) ∧ ∀ bs ∈ l, m ≤ cost f (asgOf bs) := minOver_some _
 
 theorem mem_modelsOver (n : Nat) (p : Problem) (bs : List Bool) :
     bs ∈ modelsOver n p ↔ bs.length = n ∧ Problem.holds (asgOf bs) p = true := by
